@@ -115,6 +115,24 @@ pub fn main(args: &[String]) {
         let c2 = case.clone();
         reqs.push((req, Box::new(move || result_line(&run_file(&c2))), tag));
     }
+    // (a') the schematic recursion families of the C09 oracle (chains around the limit, cycles, macro/include mixtures): the model must
+    //      report the same error with the same Include nesting
+    {
+        let mut fam: Vec<(&str, usize)> = vec![("macro-include-cycle", 1)];
+        for d in [1usize, 2, 3, 8] { fam.push(("kmacro-include-cycle", d)); }
+        for d in [1usize, 2, 5] { fam.push(("include-cycle", d)); fam.push(("macro-cycle", d)); }
+        for d in [3usize, 63, 64, 65] { fam.push(("include-chain", d)); fam.push(("macro-chain", d)); fam.push(("mixed-chain", d)); }
+        for (fi, (kind, d)) in fam.into_iter().enumerate() {
+            let (files, top, _) = crate::c09::family(kind, d);
+            let dir = format!("fam{}", fi);
+            let case = gen_pp::Case { dir: dir.clone(), files: files.iter().map(|(p, c)| (format!("{}/{}", dir, p), Some(c.clone()))).collect(), top: format!("{}/{}", dir, top),
+                incpaths: vec![dir.clone()], defines: vec![], strip: false, ignore: false, flags: vec!["recursion-family"] };
+            materialise(&root, &case);
+            let req = format!("ppfile 0 0 {} {} {} {}", hex(case.top.as_bytes()), enc_defines(&case.defines), hex(dir.as_bytes()), enc_fs(&case.files));
+            let c2 = case.clone();
+            reqs.push((req, Box::new(move || result_line(&run_file(&c2))), format!("family:{}-{}", kind, d)));
+        }
+    }
     // (b) the in-tree preprocessor testcases and some soups through preprocess_str (no includes resolvable: path prefix differs)
     let pps = corpus::pp_testcases();
     let mut texts: Vec<(String, String)> = pps.iter().filter(|x| !x.text.contains("`include")).map(|x| (x.text.clone(), format!("testcase:{}", x.name))).collect();
